@@ -15,19 +15,20 @@ def load(n):
     return json.load(open(p)) if os.path.exists(p) else {}
 def save(n, m): json.dump(m, open(meta_path(n), "w"), indent=1)
 
-def do_import(pid):
+def do_import(pid, offset=0):
     src = f"/tmp/wt-{pid}/SEEDED"
-    for k in sorted(os.listdir(src)):
+    for k0 in sorted(os.listdir(src)):
+        k = str(int(k0) + offset)
         d = f"{ROOT}/{pid}-{k}"
         os.makedirs(d, exist_ok=True)
         for f in ("patch.diff", "demo.rs", "notes.md"):
-            if os.path.exists(f"{src}/{k}/{f}"):
-                shutil.copy(f"{src}/{k}/{f}", f"{d}/{f}")
+            if os.path.exists(f"{src}/{k0}/{f}"):
+                shutil.copy(f"{src}/{k0}/{f}", f"{d}/{f}")
         m = load(f"{pid}-{k}")
         m.setdefault("property", pid)
         m.setdefault("origin", "independent sub-agent given only the property text and a scratch worktree")
         notes = open(f"{d}/notes.md").read() if os.path.exists(f"{d}/notes.md") else ""
-        m.setdefault("needs_to_manifest", "see notes.md")
+        m["needs_to_manifest"] = first_paragraphs(f"{d}/notes.md") or "see notes.md"
         save(f"{pid}-{k}", m)
         print("imported", f"{pid}-{k}")
 
@@ -78,10 +79,39 @@ def do_detect(name, prop=None):
     for i, l in enumerate(lines):
         if l.startswith("VIOLATION") and i + 1 < len(lines):
             detail = lines[i + 1].strip()[:300]; break
-    res = {"exit": out.returncode, "violations": len(viol), "first": detail}
+    # keep the (shrunk) failing cases next to the seed: they become regression inputs
+    kept = []
+    for l in viol:
+        mm = re.search(r"replay=(\S+)", l)
+        if mm and os.path.exists(mm.group(1)) and mm.group(1).endswith(".json"):
+            dst = f"{d}/replay-{prop}-{os.path.basename(mm.group(1))}"
+            shutil.copy(mm.group(1), dst); kept.append(os.path.basename(dst))
+    res = {"exit": out.returncode, "violations": len(viol), "first": detail, "replays": kept}
     m.setdefault("detected_by", {})[prop] = res
     save(name, m)
     print(name, prop, "exit", out.returncode, "violations", len(viol), "|", detail[:160])
+
+def first_paragraphs(path, n=600):
+    try:
+        t = open(path).read()
+    except Exception:
+        return ""
+    lines = [l.strip() for l in t.splitlines() if l.strip() and not l.startswith("#") and not l.startswith("```")]
+    return " ".join(lines)[:n]
+
+def markdown():
+    """the catches table for DESIGN.md section 8"""
+    out = ["| seeded change | file(s) touched | caught by (quick tier) | first report |", "|---|---|---|---|"]
+    for n in sorted(os.listdir(ROOT)):
+        m = load(n)
+        d = f"{ROOT}/{n}"
+        files = sorted(set(re.findall(r"^\+\+\+ b/(\S+)", open(f"{d}/patch.diff").read(), re.M)))
+        det = m.get("detected_by", {})
+        caught = ", ".join(f"{k}" for k, v in det.items() if v["exit"] == 1) or "—"
+        first = next((v["first"] for v in det.values() if v["exit"] == 1), "")
+        first = first.replace("|", "\\|")[:150]
+        out.append(f"| {n} | {', '.join(f.split('/')[-1] for f in files)} | {caught} | {first} |")
+    return "\n".join(out)
 
 def table():
     for n in sorted(os.listdir(ROOT)):
@@ -91,7 +121,8 @@ def table():
 
 if __name__ == "__main__":
     cmd = sys.argv[1]
-    if cmd == "import": do_import(sys.argv[2])
+    if cmd == "import": do_import(sys.argv[2], int(sys.argv[3]) if len(sys.argv) > 3 else 0)
     elif cmd == "confirm": do_confirm(sys.argv[2])
     elif cmd == "detect": do_detect(sys.argv[2], sys.argv[3] if len(sys.argv) > 3 else None)
     elif cmd == "table": table()
+    elif cmd == "markdown": print(markdown())
